@@ -192,7 +192,7 @@ func NewApp(o AppOpts, hooks *Hooks) (*app.App, func()) {
 	}
 	db := o.DB
 	if db == nil {
-		db = dbm.NewMemDB()
+		db = newLeakDB(dbm.NewMemDB())
 	}
 	opts := simtestutil.AppOptionsMap{
 		"home": home,
